@@ -92,14 +92,14 @@ func init() {
 			},
 		},
 		{
-			Name: "cbp_add_body", Props: []string{"C02", "C05"},
+			Name: "cbp_add_body", Props: []string{"C05", "C02"},
 			File: "pkg/v3/plugin/coordinated_block_proposals.go", Func: "coordinatedBlockProposals.add", Loop: 1,
 			Atoms:   []atom{{"present", "present", "bool"}},
 			Binders: map[string]map[string]string{"_, present := c.recentBlocks[val]": {}},
 			Actions: map[string]int{"c.recentBlocks[val]++": 1, "c.recentBlocks[val] = 1": 2},
 		},
 		{
-			Name: "cbp_lqb_body", Props: []string{"C02", "C05"},
+			Name: "cbp_lqb_body", Props: []string{"C05", "C02"},
 			File: "pkg/v3/plugin/coordinated_block_proposals.go", Func: "coordinatedBlockProposals.getLatestQuorumBlock", Loop: 1,
 			Atoms: []atom{
 				{"block.Hash", "b_hash", "Z"},
@@ -113,7 +113,7 @@ func init() {
 			Actions: map[string]int{"mostRecent = block": 1},
 		},
 		{
-			Name: "cbp_lqb", Props: []string{"C02", "C05"},
+			Name: "cbp_lqb", Props: []string{"C05", "C02"},
 			File: "pkg/v3/plugin/coordinated_block_proposals.go", Func: "coordinatedBlockProposals.getLatestQuorumBlock",
 			Atoms:   []atom{},
 			Binders: map[string]map[string]string{"var ( mostRecent ocr2keepers.BlockKey zeroHash [32]byte )": {}},
@@ -127,7 +127,7 @@ func init() {
 			Actions: map[string]int{"roundProposals = append(roundProposals, proposal)": 1},
 		},
 		{
-			Name: "cbp_new_body", Props: []string{"C02", "C05"},
+			Name: "cbp_new_body", Props: []string{"C05", "C02"},
 			File: "pkg/v3/plugin/coordinated_block_proposals.go", Func: "coordinatedBlockProposals.set", Loop: 3,
 			Atoms: []atom{
 				{"proposalExists(outcome.SurfacedProposals, proposal)", "in_history", "bool"},
@@ -145,7 +145,7 @@ func init() {
 			},
 		},
 		{
-			Name: "cbp_set", Props: []string{"C02", "C03", "C05"},
+			Name: "cbp_set", Props: []string{"C05", "C02", "C03"},
 			File: "pkg/v3/plugin/coordinated_block_proposals.go", Func: "coordinatedBlockProposals.set",
 			Atoms: []atom{
 				{"ok", "quorum_block", "bool"},
@@ -170,7 +170,7 @@ func init() {
 			},
 		},
 		{
-			Name: "reports_body", Props: []string{"C02", "C03", "C04"},
+			Name: "reports_body", Props: []string{"C04", "C02", "C03"},
 			File: "pkg/v3/plugin/ocr3.go", Func: "ocr3Plugin.Reports", Loop: 1, Wrap: "u64",
 			Atoms: []atom{
 				{"len(toPerform)", "n_cur", "Z"},
@@ -196,7 +196,7 @@ func init() {
 			Ignore: []string{`^performablesAdded \+= len\(toPerform\)$`},
 		},
 		{
-			Name: "reports", Props: []string{"C02", "C03", "C04"},
+			Name: "reports", Props: []string{"C04", "C02", "C03"},
 			File: "pkg/v3/plugin/ocr3.go", Func: "ocr3Plugin.Reports",
 			Atoms: []atom{
 				{"dec.err != nil", "dec_err", "bool"},
